@@ -54,6 +54,8 @@ type world struct {
 	rng        *rand.Rand
 	principals map[string]*principal
 	algs       []string
+	hookErr    error // result of the identity-hook entry point for the last validation with hook "none"
+	hookRan    bool
 	links      map[string]*matLink
 }
 
@@ -175,19 +177,20 @@ func argsOfPoint(p int) *args.Args {
 
 var policyCatalogue = map[string][]string{
 	"[]": {`["==", ".x", 7]`, `["<", ".x", 0]`, `["and", [[">", ".x", 1], ["<", ".x", 1]]]`, `["like", ".s", "w*"]`, `["any", ".l", ["==", ".", 5]]`,
-		`["==", ".t[0:1]", "e"]`, `["not", ["==", ".t[-1:]", "ü"]]`, `["==", ".m.k", "0"]`},
+		`["==", ".t[0:1]", "e"]`, `["not", ["==", ".t[-1:]", "ü"]]`, `["==", ".m.k", "0"]`, `["<=", ".f", 0]`, `[">=", ".f", 3]`, `["<", ".big", 0]`},
 	"[0]": {`["==", ".x", 0]`, `["<", ".x", 1]`, `["not", [">", ".x", 0]]`, `["like", ".s", "*0"]`, `["any", ".l", ["==", ".", 0]]`, `["<=", ".x", 0]`,
 		`["==", ".t[1:2]", "0"]`, `["like", ".t[1:]", "0*"]`, `["==", ".l[-2]", 0]`, `["==", ".m.k", 0]`},
 	"[1]": {`["==", ".x", 1]`, `["and", [[">", ".x", 0], ["<", ".x", 2]]]`, `["like", ".s", "v1"]`, `["any", ".l", ["==", ".", 1]]`,
 		`["==", ".t[-2:-1]", "1"]`, `["==", ".m[\"k\"]", 1]`, `["all", ".m[]", ["==", ".", 1]]`},
 	"[2]": {`["==", ".x", 2]`, `[">", ".x", 1]`, `[">=", ".x", 2]`, `["like", ".s", "*2"]`, `["not", ["<", ".x", 2]]`,
 		`["==", ".t[1:2]", "2"]`, `["any", ".l[0:1]", ["==", ".", 2]]`},
-	"[0 1]": {`["<", ".x", 2]`, `["<=", ".x", 1]`, `["not", ["==", ".x", 2]]`, `["or", [["==", ".x", 0], ["==", ".x", 1]]]`, `["any", ".l", ["<", ".", 2]]`,
+	"[0 1]": {`["<", ".f", 2.5]`, `["<", ".x", 2]`, `["<=", ".x", 1]`, `["not", ["==", ".x", 2]]`, `["or", [["==", ".x", 0], ["==", ".x", 1]]]`, `["any", ".l", ["<", ".", 2]]`,
 		`["not", ["==", ".t[-2:]", "2ü"]]`},
 	"[0 2]": {`["not", ["==", ".x", 1]]`, `["or", [["==", ".x", 0], ["==", ".x", 2]]]`, `["not", ["like", ".s", "*1"]]`, `["not", ["==", ".t[0:2]", "é1"]]`},
-	"[1 2]": {`[">", ".x", 0]`, `[">=", ".x", 1]`, `["all", ".l", [">", ".", 0]]`, `["not", ["==", ".x", 0]]`, `["not", ["like", ".t[:2]", "é0"]]`},
+	"[1 2]": {`[">", ".f", 0.5]`, `[">", ".x", 0]`, `[">=", ".x", 1]`, `["all", ".l", [">", ".", 0]]`, `["not", ["==", ".x", 0]]`, `["not", ["like", ".t[:2]", "é0"]]`},
 	"[0 1 2]": {`[">=", ".x", 0]`, `["<=", ".x", 2]`, `["like", ".s", "v*"]`, `["all", ".l", [">=", ".", 0]]`, `["any", ".l", ["==", ".", 9]]`, `["not", ["==", ".x", 7]]`,
-		`["==", ".t[:1]", "é"]`, `["==", ".t[2:]", "ü"]`, `["==", ".l[-1]", 9]`, `["==", ".l[1]", 9]`, `["like", ".t", "é*ü"]`},
+		`["==", ".t[:1]", "é"]`, `["==", ".t[2:]", "ü"]`, `["==", ".l[-1]", 9]`, `["==", ".l[1]", 9]`, `["like", ".t", "é*ü"]`,
+		`[">", ".big", 0]`, `["<=", ".x", 9007199254740991]`, `[">=", ".x", -9007199254740991]`, `["<=", ".big", 9007199254740991]`, `[">=", ".f", 0.5]`, `["<=", ".f", 2.5]`},
 	"[0 1 2 3]": {`["==", ".y?", 3]`, `["and", []]`, `["like", ".y?", "*"]`, `["and", [["==", ".y?", 3], [">", ".z?", 0]]]`, `["==", ".l?[5]?", 1]`},
 }
 
@@ -198,6 +201,8 @@ func concreteArgs(p int) *args.Args {
 	_ = a.Add("l", []int{p, 9})
 	_ = a.Add("t", "é"+strconv.Itoa(p)+"ü")
 	_ = a.Add("m", map[string]any{"k": p})
+	_ = a.Add("f", float64(p)+0.5)
+	_ = a.Add("big", int64(1)<<53-1)
 	return a
 }
 
@@ -457,6 +462,7 @@ func (w *world) validateReal(c *chainCase, variant int) (allowed bool, stage str
 		}
 	}
 	var verr error
+	w.hookRan = false
 	// a panic inside the validation itself is a real outcome ("not reported as allowed")
 	defer func() {
 		if r := recover(); r != nil {
@@ -466,6 +472,10 @@ func (w *world) validateReal(c *chainCase, variant int) (allowed bool, stage str
 	switch c.Inv.Hook {
 	case "none", "":
 		verr = inv.ExecutionAllowed(loader)
+		// the hook entry point with the identity hook must decide the same; whichever of the two is reported as
+		// allowed is the observable the properties forbid
+		herr := inv.ExecutionAllowedWithArgsHook(loader, func(a args.ReadOnly) (*args.Args, error) { return a.WriteableClone(), nil })
+		w.hookErr, w.hookRan = herr, true
 	case "id":
 		verr = inv.ExecutionAllowedWithArgsHook(loader, func(a args.ReadOnly) (*args.Args, error) {
 			return a.WriteableClone(), nil
@@ -531,6 +541,14 @@ func chainReplay(prop string) replayFn {
 			got, stage, err := w.validateReal(&c, idx)
 			if err != nil {
 				return fmt.Errorf("case %s: %w", raw, err)
+			}
+			if w.hookRan && (w.hookErr == nil) != got {
+				// ExecutionAllowed and ExecutionAllowedWithArgsHook(identity) disagree: take the answer the property forbids
+				if prop == "C05" {
+					got, stage = false, stageOf(w.hookErr)+"|"+stage
+				} else {
+					got, stage = true, "allowed (one of the two entry points)"
+				}
 			}
 			all := c.Rules.P && c.Rules.C && c.Rules.Pol && c.Rules.T
 			if all != c.Allowed {
@@ -678,6 +696,9 @@ func init() {
 			if rng.Intn(25) == 0 {
 				ln = 0
 			}
+			if rng.Intn(40) == 0 {
+				ln = 7 + rng.Intn(14) // the rules put no bound on the length of a chain
+			}
 			sub := names[rng.Intn(len(names))]
 			arg := rng.Intn(3)
 			// conforming chain from the root (subject) down to the invoker
@@ -783,6 +804,15 @@ func init() {
 				ev["links"] = []absLink{}
 			}
 			emit(ev)
+			if w.hookRan && (w.hookErr == nil) != got {
+				// the identity-hook entry point decided differently: its decision is an event of its own
+				ev2 := map[string]any{}
+				for k, v := range ev {
+					ev2[k] = v
+				}
+				ev2["allowed"], ev2["stage"], ev2["entry"] = w.hookErr == nil, stageOf(w.hookErr), "ExecutionAllowedWithArgsHook(identity)"
+				emit(ev2)
+			}
 		}
 		return nil
 	}
@@ -1060,6 +1090,15 @@ func stmtFromJSON(x any) (stmt, error) {
 	lit := func(v any) ([]any, error) {
 		switch t := v.(type) {
 		case float64:
+			if t != float64(int64(t)) {
+				return []any{"float", t * 2, "fin"}, nil // Values.tla: a finite float is its double as an integer
+			}
+			if t >= 1<<53-1 {
+				return []any{"int", hugeMark}, nil // +/-(2^53-1) is the model's boundary integer
+			}
+			if t <= -(1<<53 - 1) {
+				return []any{"int", -hugeMark}, nil
+			}
 			return []any{"int", t}, nil
 		case string:
 			return []any{"string", toAny(stringToCps(t))}, nil
